@@ -111,12 +111,13 @@ def cat_factor(rng: random.Random, v: str, frame: dict, allow_C: bool = True) ->
     return {"text": text, "label": text, "kind": "cat", "var": v, "levels": frame_levels(frame, v)}
 
 
-def eval_num_label(label: str, frame: dict) -> np.ndarray:
+def eval_num_label(label: str, frame: dict, ctx: dict | None = None) -> np.ndarray:
     """Independent numpy evaluation of a numeric factor from its label."""
     from .data import make_frame
 
     df = make_frame(frame)
-    env = {c: df[c].to_numpy(dtype=float) for c, spec in frame["cols"] if spec["kind"] == "num"}
+    env = {k: (np.asarray(v, dtype=float) if isinstance(v, list) else v) for k, v in (ctx or {}).items()}
+    env.update({c: df[c].to_numpy(dtype=float) for c, spec in frame["cols"] if spec["kind"] == "num"})  # data wins over context
     env.update({"np": np, "log": np.log, "log10": np.log10, "exp": np.exp, "I": lambda x: x})
     with np.errstate(all="ignore"):
         val = eval(label, {"__builtins__": {}}, env)  # noqa: S307 - labels come from our own generator
